@@ -55,6 +55,14 @@ type execDecl struct {
 	prio           int32
 	dur            int // expected duration (= Action timeout), in ticks
 	scIdx          int // size class index the scripted selector picks
+	// share: all letters with the same non-empty share name request the
+	// SAME cacheable action (one action digest): while a task for it is
+	// queued or executing further requests are deduplicated against it.
+	// Platform, expected duration and size class index are those of the
+	// first letter declared with that name.
+	share string
+	// prefixOnly: the letter only occurs in the canned prefix.
+	prefixOnly bool
 }
 
 type drainDecl struct {
@@ -354,7 +362,11 @@ func (s *sys) addLetters() {
 	}
 	for i := range s.cfg.execs {
 		e := &s.cfg.execs[i]
-		s.letter(e.name, nil, func() { s.x.Go("op", func() { s.doExecute(e) }) })
+		var en func() bool
+		if e.prefixOnly {
+			en = func() bool { return s.pos < len(s.cfg.prefix) }
+		}
+		s.letter(e.name, en, func() { s.x.Go("op", func() { s.doExecute(e) }) })
 	}
 	for i := range s.cfg.drains {
 		d := &s.cfg.drains[i]
@@ -471,21 +483,35 @@ func (s *sys) doExecute(e *execDecl) {
 	now := s.clock.Now()
 	s.m.expire(now)
 	s.seq++
-	sum := sha256.Sum256([]byte(fmt.Sprintf("action-%d", s.seq)))
+	// a: the declaration that determines the action's content.
+	a, salt, id := e, byte(s.seq), fmt.Sprintf("action-%d", s.seq)
+	if e.share != "" {
+		for i := range s.cfg.execs {
+			if c := &s.cfg.execs[i]; c.share == e.share {
+				a = c
+				break
+			}
+		}
+		salt, id = 0, fmt.Sprintf("shared-%s@%s", e.share, e.inst)
+	}
+	sum := sha256.Sum256([]byte(id))
 	hash := hex.EncodeToString(sum[:])
 	action := &remoteexecution.Action{
 		CommandDigest:   &remoteexecution.Digest{Hash: hash, SizeBytes: 1},
 		InputRootDigest: &remoteexecution.Digest{Hash: hash, SizeBytes: 2},
-		Platform:        platformName(e.platform),
-		Timeout:         durationpb.New(time.Duration(e.dur) * tickUnit),
-		Salt:            []byte{byte(s.seq), byte(e.scIdx)},
+		Platform:        platformName(a.platform),
+		Timeout:         durationpb.New(time.Duration(a.dur) * tickUnit),
+		Salt:            []byte{salt, byte(a.scIdx)},
 	}
 	s.cas.put(hash, action)
-	t := &mTask{hash: hash, inst: e.inst, platform: e.platform, path: s.cfg.modelPath(e), prio: e.prio,
-		dur: time.Duration(e.dur) * tickUnit, scIdx: e.scIdx, letter: e.name}
+	t := &mTask{hash: hash, inst: e.inst, platform: a.platform,
+		dur: time.Duration(a.dur) * tickUnit, scIdx: a.scIdx, letter: e.name, share: e.share}
+	t.ops = []*mOp{{t: t, path: s.cfg.modelPath(e), prio: e.prio, at: now}}
 	want := codes.OK
 	if !s.broken {
-		want = s.m.execute(t)
+		// t becomes the task the request waits for: the new one, or the
+		// in-flight task of the same action it is deduplicated against.
+		want, t = s.m.execute(t)
 	}
 	s.mu.Unlock()
 
@@ -509,9 +535,11 @@ func (s *sys) doExecute(e *execDecl) {
 		}
 		switch {
 		case t.state == tHanded && meta.Stage != remoteexecution.ExecutionStage_EXECUTING:
-			s.fail("C04", "not-handed-over", "task %s (invocation %v) arrived while workers %v were waiting for work in its queue %v, but it was %s instead of being handed to one of them", e.name, t.path, t.handSet, t.scq, meta.Stage)
+			s.fail("C04", "not-handed-over", "task %s (invocation %v) arrived while workers %v were waiting for work in its queue %v, but it was %s instead of being handed to one of them", e.name, t.paths(), t.handSet, t.scq, meta.Stage)
 		case t.state == tQueued && meta.Stage != remoteexecution.ExecutionStage_QUEUED:
 			s.failBoth("handed-without-waiting-worker", "task %s is %s right after Execute although no eligible worker of its queue %v was waiting", e.name, meta.Stage, t.scq)
+		case t.state == tExecuting && meta.Stage != remoteexecution.ExecutionStage_EXECUTING:
+			s.failBoth("desync/deduplicated-stage", "request %s for the action of the task executing on %s reports stage %s", e.name, t.worker, meta.Stage)
 		}
 	}
 	err = s.bq.Execute(&remoteexecution.ExecuteRequest{
@@ -706,7 +734,7 @@ func (s *sys) checkBoundary() {
 	sort.Strings(hashes)
 	for _, h := range hashes {
 		if t := m.tasks[h]; t.state == tHanded {
-			s.fail("C04", "handover-lost", "task %s (invocation %v) had to be handed straight to one of the waiting workers %v of queue %v, but none of them received it", t.letter, t.path, t.handSet, t.scq)
+			s.fail("C04", "handover-lost", "task %s (invocation %v) had to be handed straight to one of the waiting workers %v of queue %v, but none of them received it", t.letter, t.paths(), t.handSet, t.scq)
 			return
 		}
 	}
@@ -721,7 +749,7 @@ func (s *sys) checkBoundary() {
 			}
 			for _, w := range q.sortedWorkers() {
 				if w.waiting(q) {
-					msg := fmt.Sprintf("task %s stays queued in %v while undrained worker %s of that queue is blocked waiting for work", q.queued[0].letter, q.key, w.name)
+					msg := fmt.Sprintf("task %s stays queued in %v while undrained worker %s of that queue is blocked waiting for work", q.queued[0].t.letter, q.key, w.name)
 					s.broken = true
 					s.x.FailP("C04", "work-conservation", "after %v: %s", s.hist, msg)
 					s.x.FailP("C05", "work-conservation", "after %v: %s", s.hist, msg)
@@ -857,8 +885,8 @@ func (s *sys) compareQueue(q *mScq, iq *scheduler.VerifSeqSizeClassQueue) string
 	got := map[string][]string{}
 	s.collectQueued(iq.Root, got)
 	wantQ := map[string][]string{}
-	for _, t := range q.queued {
-		wantQ[pathStr(t.path)] = append(wantQ[pathStr(t.path)], t.hash)
+	for _, o := range q.queued {
+		wantQ[pathStr(o.path)] = append(wantQ[pathStr(o.path)], o.t.hash)
 	}
 	render := func(m map[string][]string) string {
 		var ks []string
@@ -875,6 +903,23 @@ func (s *sys) compareQueue(q *mScq, iq *scheduler.VerifSeqSizeClassQueue) string
 	}
 	if g, w := render(got), render(wantQ); g != w {
 		return fmt.Sprintf("queued-tasks: model {%s} impl {%s}", w, g)
+	}
+	// Executing workers per invocation (the quantity the score is made
+	// of): workers whose task carries an operation of the invocation or of
+	// one nested in it, including operations that joined the task through
+	// in-flight deduplication.
+	return s.compareExecuting(q, iq.Root)
+}
+
+func (s *sys) compareExecuting(q *mScq, i *scheduler.VerifSeqInvocation) string {
+	p := s.invPath(i.Keys)
+	if want := s.m.execCount(q, p); want != i.ExecutingWorkersCount {
+		return fmt.Sprintf("executing-workers: invocation %v has %d executing workers in the model, %d in the implementation (%v)", p, want, i.ExecutingWorkersCount, i.ExecutingWorkers)
+	}
+	for _, c := range i.Children {
+		if msg := s.compareExecuting(q, c); msg != "" {
+			return msg
+		}
 	}
 	return ""
 }
